@@ -23,6 +23,7 @@ from fsim.worlds import ekf as ekfw
 
 TOL = 1e-9
 MAXDT_MENU = [0.1, 0.05, 0.25, 0.07, 1.0, 1.0 / 60.0, 1.0 / 30.0, 0.123456789, 0.30000000000000004]  # incl. values with > 6 significant digits
+CPP_DEFAULTS = {"cse": True, "innovation_filtering": 5.0, "max_dt_sec": 0.1}  # documented defaults of cpp.Config
 K_MENU = [None, 1.0, 5.0, 3.0, 4, 7.0 / 3.0, 1, 2.3456789, 0.123456789]  # incl. ints and long mantissas (a generator that prints
 # the constant with 6 significant digits moves the threshold by ~1e-6: boundary readings at 4e-9..1e-7 from it decide differently)
 CPP_UNSAFE_MODELS = {"managed"}  # its symbol names collide with parameter names the generator emits ('state')
@@ -42,6 +43,22 @@ def generate(rng, prop, tier):
             break
     cfg = {"cse": rng.random() < 0.5, "innovation_filtering": rng.choice(K_MENU), "max_dt_sec": fx(rng.choice(MAXDT_MENU)),
            "config_as_dict": rng.random() < 0.4}
+    # how the options reach the generator (and what an EARLIER generation in the same process was given): the accepted
+    # spellings are a Config, a dict (missing keys = documented defaults) and None (all defaults)
+    r_ = rng.random()
+    mode = "Config" if r_ < 0.4 else "dict" if r_ < 0.6 else "dict_partial" if r_ < 0.75 else "none" if r_ < 0.85 else "shared_dict"
+    if mode == "none":
+        cfg.update(cse=CPP_DEFAULTS["cse"], innovation_filtering=CPP_DEFAULTS["innovation_filtering"], max_dt_sec=fx(CPP_DEFAULTS["max_dt_sec"]))
+    elif mode == "dict_partial":
+        omit = rng.sample(["cse", "innovation_filtering", "max_dt_sec"], rng.randint(1, 2))
+        for k_ in omit:
+            cfg[k_] = fx(CPP_DEFAULTS[k_]) if k_ == "max_dt_sec" else CPP_DEFAULTS[k_]
+        cfg["config_omit"] = sorted(omit)
+    cfg["config_mode"] = mode
+    cfg["config_as_dict"] = mode in ("dict", "dict_partial", "shared_dict")
+    # the earlier generation's own options: distinctive values, some keys only
+    dk = {"innovation_filtering": rng.choice([2.0, 0.75]), "max_dt_sec": rng.choice([0.5, 0.04]), "common_subexpression_elimination": not cfg["cse"]}
+    cfg["decoy_config"] = {k_: dk[k_] for k_ in sorted(rng.sample(sorted(dk), rng.randint(1, 3)))}
     if d["sensors"] and rng.random() < 0.1:
         # an exact pseudo-measurement: one reading declared with variance exactly 0.0 (a falsy value)
         key = rng.choice(sorted(d["sensors"]))
@@ -51,7 +68,8 @@ def generate(rng, prop, tier):
     if prop in ("C06", "C07") and rng.random() < (0.2 if prop == "C06" else 0.06):
         # exactly representable NIS tie (and +-1 ulp) on the selector model, through the GENERATED C++ filter
         t = ekfw._gen_tie(rng, models.curated("direct2"), dict(cfg, mode="direct"))
-        t["config"] = dict(cfg, innovation_filtering=t["config"]["innovation_filtering"])
+        t["config"] = dict(cfg, innovation_filtering=t["config"]["innovation_filtering"], config_mode="Config", config_as_dict=False)
+        t["config"].pop("config_omit", None)
         for op in t["ops"]:
             if op["op"] == "predict":
                 op["control"] = {}
@@ -59,7 +77,7 @@ def generate(rng, prop, tier):
     # state carried across generations: other definitions generated in the same process before the one under test
     # (sharing sensor names with it), as a build script that emits several filters does
     decoys = []
-    if rng.random() < 0.35:
+    if rng.random() < 0.35 or cfg["config_mode"] in ("none", "dict_partial", "shared_dict"):
         for _ in range(rng.randint(1, 2)):
             dd = models.draw(rng, max_states=3, max_controls=2, max_cal=2, max_sensors=2, min_sensors=1, symbol_keys=False)
             # same sensor names as the model under test, different models/noise
@@ -304,8 +322,16 @@ def driver_source(d):
 
 
 # --------------------------------------------------------------------------- build one generated filter
-def generate_cpp(d, cfg, workdir):
-    """Run the REAL generator entry point (cpp.compile_ekf) with sys.argv pointing into workdir."""
+def config_kw(cfg):
+    kw = {"common_subexpression_elimination": cfg["cse"], "innovation_filtering": cfg["innovation_filtering"], "max_dt_sec": xf(cfg["max_dt_sec"])}
+    for k_ in cfg.get("config_omit", []):
+        kw.pop({"cse": "common_subexpression_elimination"}.get(k_, k_))
+    return kw
+
+
+def generate_cpp(d, cfg, workdir, config_obj=None):
+    """Run the REAL generator entry point (cpp.compile_ekf) with sys.argv pointing into workdir.
+    config_obj: a caller-owned options object to pass as is (shared between generations)."""
     from formak import cpp
 
     b = models.build(d)
@@ -316,8 +342,14 @@ def generate_cpp(d, cfg, workdir):
     sys.argv = ["generator.py", "--header", header, "--source", source, "--namespace", "ns"]
     try:
         with contextlib.redirect_stdout(io.StringIO()):
-            kw = {"common_subexpression_elimination": cfg["cse"], "innovation_filtering": cfg["innovation_filtering"], "max_dt_sec": xf(cfg["max_dt_sec"])}
-            config = kw if cfg.get("config_as_dict") else cpp.Config(**kw)
+            mode = cfg.get("config_mode") or ("dict" if cfg.get("config_as_dict") else "Config")
+            if config_obj is not None:
+                config = config_obj
+            elif mode == "none":
+                config = None
+            else:
+                kw = config_kw(cfg)
+                config = kw if mode in ("dict", "dict_partial", "shared_dict") else cpp.Config(**kw)
             r = cpp.compile_ekf(b["model"], b["process_noise"], b["sensor_models"], b["sensor_noises"], b["calibration_map"], config=config)
     finally:
         sys.argv = argv
@@ -343,13 +375,15 @@ class CppLeg:
         self.dir = cppbuild.tmpdir("fsim_gen_")
         self.error = None
         self.stage = None
+        # one caller-owned options dict handed to every generation of this process (a build script with an OPTIONS constant)
+        shared = config_kw(cfg) if cfg.get("config_mode") == "shared_dict" else None
         for j, dd in enumerate(schedule.get("decoys", [])):
             try:
-                generate_cpp(dd, dict(cfg, config_as_dict=False), os.path.join(self.dir, f"decoy{j}"))
+                generate_cpp(dd, dict(cfg, config_mode="Config"), os.path.join(self.dir, f"decoy{j}"), config_obj=shared if shared is not None else (dict(cfg["decoy_config"]) if cfg.get("decoy_config") else None))
             except Exception:  # noqa: BLE001
                 pass  # a decoy only has to have been generated in this process
         try:
-            header, source = generate_cpp(d, cfg, self.dir)
+            header, source = generate_cpp(d, cfg, self.dir, config_obj=shared)
         except Exception as e:  # noqa: BLE001
             self.error, self.stage = f"{type(e).__name__}: {str(e)[:300]}", "generate"
             return
@@ -414,10 +448,12 @@ def execute(schedule) -> Result:
 class _Track:
     """forwards to the real python filter; remembers the largest covariance/state magnitude seen along a tick"""
 
-    def __init__(self, pe):
+    def __init__(self, pe, ref=None, names=()):
+        self.ref, self.names = ref, list(names)
         self.pe, self.config, self.control_size = pe, pe.config, pe.control_size
         self.pmax = self.xmax = 0.0
         self.calls = 0
+        self.singular = False
 
     def note(self, out):
         self.xmax = max(self.xmax, float(np.max(np.abs(out[0].data))) if out[0].data.size else 0.0)
@@ -434,6 +470,17 @@ class _Track:
 
     def sensor_model(self, state, covariance, *, sensor_key, sensor_reading):
         self.note((state, covariance))
+        if self.ref is not None and not self.singular:
+            try:
+                # domain guard, the same as for single updates: a numerically singular S inside the tick (an exact, zero-noise
+                # reading fused twice) or S as the small difference of large terms
+                x_ = {nm: float(state.data[j, 0]) for j, nm in enumerate(self.names)}
+                P_ = np.array(covariance.data, dtype=float)
+                _hx, H_, S_ = self.ref.sensor(sensor_key, x_, P_)
+                if S_.size and (not np.all(np.isfinite(S_)) or float(np.linalg.cond(S_)) > ekfw.GUARD_COND or float(np.linalg.norm(H_, 2)) ** 2 * float(np.linalg.norm(P_, 2)) > 1e4 * float(np.max(np.abs(S_)))):
+                    self.singular = True
+            except Exception:  # noqa: BLE001
+                self.singular = True
         return self.note(self.pe.sensor_model(state, covariance, sensor_key=sensor_key, sensor_reading=sensor_reading))
 
 
@@ -506,7 +553,7 @@ def _lockstep(schedule, leg, res):
                 else:
                     if mf is None:
                         # both sides (re)start a managed filter from the python leg's current estimate
-                        track = _Track(pe)
+                        track = _Track(pe, ekfw.cached_ref(d), S)
                         mf = ManagedFilter(track, held_t, st, cov)
                         lines.append(f"NEWMF {fx(held_t)} {_sv_line(S, xof(st), cov.data)}")
                         expect.append(("newmf", i, None, None))
@@ -539,9 +586,10 @@ def _lockstep(schedule, leg, res):
                         groups.append((cur_t, xf(r["t"])))
                         cur_t = xf(r["t"])
                     groups.append((cur_t, xf(op["t_out"])))
-                    expect.append(("tick", i, out, {"n": len(readings), "pmax": track.pmax, "xmax": track.xmax, "sens": sens + (track.calls, eps_abs), "groups": groups, "sensors": [(sensors.index(r["sensor"]), r["rid"]) for r in op["readings"]]}))
+                    expect.append(("tick", i, out, {"n": len(readings), "pmax": track.pmax, "xmax": track.xmax, "sens": sens + (track.calls, eps_abs), "singular_S": track.singular, "groups": groups, "sensors": [(sensors.index(r["sensor"]), r["rid"]) for r in op["readings"]]}))
                     track.pmax = track.xmax = 0.0
                     track.calls = 0
+                    track.singular = False
                     st, cov = mf.state, mf.covariance  # what the python runtime holds (direct ops continue from there)
                     if readings:
                         held_t = xf(op["readings"][-1]["t"])
@@ -663,7 +711,10 @@ def _compare(schedule, expect, out_lines, res, n, S):
             xs, Ps = _parse_sv(r, n)
             res.stats["tick"] += 1
             res.stats[f"probe:tick_readings={min(extra['n'], 3)}"] += 1
-            _cmp_sv(res, "C07", "tick", i, (out.state, out.covariance), xs, Ps, extra["pmax"], extra["xmax"], extra["sens"] + (carry,))
+            if extra.get("singular_S"):
+                res.stats["probe:tick_not_compared_singular_S"] += 1
+            else:
+                _cmp_sv(res, "C07", "tick", i, (out.state, out.covariance), xs, Ps, extra["pmax"], extra["xmax"], extra["sens"] + (carry,))
             carry = float(np.max(np.abs(xs - out.state.data))) if xs.size else 0.0  # the two managed filters run on from their own estimates
             if h[0] != "1":
                 xb, Pb = _parse_sv(bh, n)
